@@ -96,6 +96,24 @@ def check(ctx):
                            '(valid) DeletionDate: with two or more entries in scope '
                            'sorted() raises TypeError and nothing is offered'
                            % (cmd, short(key, 100)))
+    # ---- R19.2b every date that is compared / sorted comes from formats that agree on
+    # timezone awareness (naive vs aware datetimes do not compare)
+    for cmd in ('restore', 'empty'):
+        for what, node, term in date_uses(ctx, cmd):
+            fmts = set()
+            for sp in strptime_calls(term):
+                f = strip(sp.args[1]) if len(sp.args) > 1 else None
+                if isinstance(f, Const) and isinstance(f.value, str):
+                    fmts.add(f.value)
+                for a in flat(sp.args[1]) if len(sp.args) > 1 else []:
+                    if isinstance(a, Const) and isinstance(a.value, str):
+                        fmts.add(a.value)
+            aware = set(('%z' in f or '%Z' in f) for f in fmts)
+            ctx.ob('R19.2', '%s %s: all accepted date formats agree on timezone awareness'
+                   % (cmd, what), len(aware) <= 1, node=node,
+                   message='%s: dates parsed with %s are mixed in one %s: an offset-aware '
+                           'datetime does not compare with a naive one (TypeError aborts the '
+                           'command for every entry)' % (cmd, sorted(fmts), what))
     # ---- R19.3
     for cmd in ('list', 'restore', 'rm', 'empty'):
         b = ctx.graph(cmd)
